@@ -10,7 +10,7 @@ def run(ctx):
     ctx.coq_props('Props/C08.v')
     gen_const.instance_obligations(ctx, 'C08', which=('tables',))
     q = ctx.tier == 'quick'
-    worldcheck.run_histories(ctx, 'C08', n_defsets=10 if q else 60, hist_per_set=4, sizes=[60, 200] if q else [60, 200, 600],
+    worldcheck.run_histories(ctx, 'C08', n_defsets=16 if q else 60, hist_per_set=4, sizes=[60, 200] if q else [60, 200, 600],
                              dialects=('wows', 'wows126', 'wot', 'wows'))
     recordings.payload_check(ctx, 'C08', quick_n=4)
     ctx.notes.append('fixed: C08-a (own-player packets without a second entity were discarded) - repaired in /repo, see known_findings.json')
